@@ -72,6 +72,51 @@ def _canonical(repo, actual):
     return actual
 
 
+_OWNER_CACHE = {}
+
+
+def owner_qualname(repo, fn, owners):
+    """a private helper that is called only (transitively) from one of ``owners`` acts for that owner: extracting a block of
+    is_registered into _helper() does not create a new writer of the stores"""
+    if fn.qualname in owners:
+        return fn.qualname
+    key = id(repo)
+    if key not in _OWNER_CACHE or _OWNER_CACHE[key][0] is not repo:
+        graph, fns = effects.call_graph(repo)
+        callers = {}
+        for caller, callees in graph.items():
+            for c in callees:
+                callers.setdefault(c, set()).add(caller)
+        _OWNER_CACHE.clear()
+        _OWNER_CACHE[key] = (repo, callers, fns)
+    _, callers, fns = _OWNER_CACHE[key]
+    seen = set()
+    frontier = {fn.key}
+    found = set()
+    for _ in range(4):
+        nxt = set()
+        for k in frontier:
+            cs = callers.get(k, set()) - seen
+            if not cs:
+                # no callers inside the package: a public function in its own right
+                found.add(fns[k].qualname if k in fns else k)
+            for c in cs:
+                seen.add(c)
+                q = fns[c].qualname if c in fns else c
+                if q in owners:
+                    found.add(q)
+                else:
+                    nxt.add(c)
+        frontier = nxt
+        if not frontier:
+            break
+    if frontier:
+        return fn.qualname
+    if len(found) == 1 and fn.name.startswith('_'):
+        return next(iter(found))
+    return fn.qualname
+
+
 def check_write_inventory(repo, rep, rule):
     """every write to module-level state from inside the print cone is in the allow-list"""
     cone, shared, sites, cone_sites = cone_inventory(repo)
@@ -85,7 +130,8 @@ def check_write_inventory(repo, rep, rule):
             continue
         seen.add(key)
         n += 1
-        reason = ALLOWED_CONE_WRITES.get((_canonical(repo, s.obj.name), s.fn.qualname, s.detail))
+        owners_ = {k_[1] for k_ in ALLOWED_CONE_WRITES}
+        reason = ALLOWED_CONE_WRITES.get((_canonical(repo, s.obj.name), owner_qualname(repo, s.fn, owners_), s.detail))
         rep.check(reason is not None, rule, 'cone-write:%s:%s:%s' % key, s.where,
                   reason or '',
                   '%s %s module-level %s %s from inside the printing pipeline; only the listed idempotent writes are '
